@@ -218,8 +218,8 @@ pub fn machines(opts: &Opts) -> Vec<crate::machine::MCfg> {
             m.touch_leaves = true;
             m.seeds = vec![0];
             out.push(m);
-            let mut m = base_cfg("adopt/N3P2A1", same_shape_leaves(var), vec![OpK::Add, OpK::Mul], 7);
-            m.bounds = Bounds { builds: 3, passes: 2, adopts: 1, fetches: 1, depth: 6, ..Bounds::default() };
+            let mut m = base_cfg("adopt/N2P3A2G1", same_shape_leaves(var), vec![OpK::Add, OpK::Mul], 7);
+            m.bounds = Bounds { builds: 2, passes: 3, adopts: 2, fetches: 1, depth: 6, ..Bounds::default() };
             m.seeds = vec![0];
             out.push(m);
             // the additive term of matmul: its gradient is a pass-through of the delta
